@@ -19,6 +19,41 @@ thread_local! {
     /// The run this virtual thread belongs to; a thread leaked by an aborted run must never act
     /// in a later one.
     static EPOCH: Cell<u64> = const { Cell::new(0) };
+    /// Allocation accounting for C03: allocator calls made by code under test while the thread
+    /// is inside a (simulated) signal delivery. Harness code raises IN_HARNESS around itself.
+    pub static HANDLER_DEPTH: Cell<usize> = const { Cell::new(0) };
+    pub static IN_HARNESS: Cell<usize> = const { Cell::new(0) };
+    pub static H_ALLOCS: Cell<u64> = const { Cell::new(0) };
+    pub static H_FREES: Cell<u64> = const { Cell::new(0) };
+    /// Address of the siginfo record the innermost simulated delivery on this thread passes to
+    /// the dispatcher (so that a chained handler can check it got the very same pointer before
+    /// dereferencing anything).
+    pub static EXPECTED_INFO: Cell<usize> = const { Cell::new(0) };
+}
+
+pub struct HarnessGuard;
+
+impl HarnessGuard {
+    pub fn new() -> Self {
+        let _ = IN_HARNESS.try_with(|c| c.set(c.get() + 1));
+        HarnessGuard
+    }
+}
+
+impl Drop for HarnessGuard {
+    fn drop(&mut self) {
+        let _ = IN_HARNESS.try_with(|c| c.set(c.get().saturating_sub(1)));
+    }
+}
+
+/// Called by the global allocator wrapper.
+pub fn count_alloc(is_free: bool) {
+    let _ = HANDLER_DEPTH.try_with(|d| {
+        if d.get() > 0 && IN_HARNESS.try_with(|h| h.get()).unwrap_or(1) == 0 {
+            let c = if is_free { &H_FREES } else { &H_ALLOCS };
+            let _ = c.try_with(|c| c.set(c.get() + 1));
+        }
+    });
 }
 
 #[derive(Clone, Debug)]
@@ -72,6 +107,7 @@ struct State {
     log: Vec<Event>,
     mutex_holder: HashMap<usize, (usize, usize)>,
     abort_reason: Option<String>,
+    body_deliveries: u32,
     deliver: Option<DeliverFn>,
     /// Safety net: snapshots held by read sections (thr, depth, ptr) and freed pointers, so that
     /// a schedule is stopped *before* the real code would touch freed memory.
@@ -134,6 +170,7 @@ fn hook_before(op: &Op) -> u32 {
         Some(i) => i,
         None => return 0,
     };
+    let _hg = HarnessGuard::new();
     let s = sched();
     let mut st = s.m.lock().unwrap();
     let my_epoch = EPOCH.with(|e| e.get());
@@ -164,31 +201,9 @@ fn hook_before(op: &Op) -> u32 {
             }
             Cmd::Deliver(sig, id) => {
                 st.threads[i].status = Status::Running;
-                st.threads[i].depth += 1;
-                let depth = st.threads[i].depth;
-                push_ctl(&mut st, i, depth, "deliver_begin", sig as u64, id as u64);
-                let custom = st.deliver.clone();
                 drop(st);
-                if let Some(f) = custom {
-                    f(sig, id);
-                    st = s.m.lock().unwrap();
-                    push_ctl(&mut st, i, depth, "deliver_end", sig as u64, id as u64);
-                    st.threads[i].depth -= 1;
-                    continue;
-                }
-                let mut info: libc::siginfo_t = unsafe { std::mem::zeroed() };
-                info.si_signo = sig;
-                info.si_code = 0; // SI_USER
-                // si_pid / si_uid live right after the three leading ints (+ padding) on Linux.
-                unsafe {
-                    let p = &mut info as *mut libc::siginfo_t as *mut i32;
-                    *p.add(4) = 1_000_000 + id as i32;
-                    *p.add(5) = id as i32;
-                }
-                unsafe { verif::deliver(sig, &mut info, std::ptr::null_mut()) };
+                deliver_here(sig, id);
                 st = s.m.lock().unwrap();
-                push_ctl(&mut st, i, depth, "deliver_end", sig as u64, id as u64);
-                st.threads[i].depth -= 1;
                 continue;
             }
             Cmd::Abort => {
@@ -197,6 +212,57 @@ fn hook_before(op: &Op) -> u32 {
             }
         }
     }
+}
+
+/// Run one (simulated) delivery of `sig` on the calling virtual thread, as a nested frame.
+pub fn deliver_here(sig: c_int, id: u32) {
+    let _hg = HarnessGuard::new();
+    let i = VTID.with(|v| v.get()).expect("deliver_here outside a virtual thread");
+    let s = sched();
+    let (depth, custom) = {
+        let mut st = s.m.lock().unwrap();
+        st.threads[i].depth += 1;
+        let depth = st.threads[i].depth;
+        push_ctl(&mut st, i, depth, "deliver_begin", sig as u64, id as u64);
+        (depth, st.deliver.clone())
+    };
+    let saved = (H_ALLOCS.with(|c| c.replace(0)), H_FREES.with(|c| c.replace(0)));
+    HANDLER_DEPTH.with(|d| d.set(d.get() + 1));
+    let saved_guard = IN_HARNESS.with(|h| h.replace(0));
+    if let Some(f) = custom {
+        f(sig, id);
+    } else {
+        let mut info: libc::siginfo_t = unsafe { std::mem::zeroed() };
+        info.si_signo = sig;
+        info.si_code = 0; // SI_USER
+        // si_pid / si_uid live right after the three leading ints (+ padding) on Linux.
+        unsafe {
+            let p = &mut info as *mut libc::siginfo_t as *mut i32;
+            *p.add(4) = 1_000_000 + id as i32;
+            *p.add(5) = id as i32;
+        }
+        let saved_info = EXPECTED_INFO.with(|c| c.replace(&mut info as *mut _ as usize));
+        unsafe { verif::deliver(sig, &mut info, 0x5151 as *mut libc::c_void) };
+        EXPECTED_INFO.with(|c| c.set(saved_info));
+    }
+    IN_HARNESS.with(|h| h.set(saved_guard));
+    HANDLER_DEPTH.with(|d| d.set(d.get() - 1));
+    let allocs = H_ALLOCS.with(|c| c.replace(saved.0));
+    let frees = H_FREES.with(|c| c.replace(saved.1));
+    let mut st = s.m.lock().unwrap();
+    push_ctl(&mut st, i, depth, "deliver_end", sig as u64, id as u64);
+    if let Some(last) = st.log.last_mut() {
+        last.old = allocs;
+        last.new = frees;
+    }
+    st.threads[i].depth -= 1;
+}
+
+/// Next delivery id (for deliveries started by thread bodies rather than the controller).
+pub fn fresh_delivery_id() -> u32 {
+    let mut st = sched().m.lock().unwrap();
+    st.body_deliveries += 1;
+    1000 + st.body_deliveries
 }
 
 fn push_ctl(st: &mut State, thr: usize, depth: usize, name: &str, a: u64, b: u64) {
@@ -217,6 +283,7 @@ fn push_ctl(st: &mut State, thr: usize, depth: usize, name: &str, a: u64, b: u64
 }
 
 fn hook_after(op: &Op, old: u64, new: u64, ok: bool) {
+    let _hg = HarnessGuard::new();
     let i = match VTID.with(|v| v.get()) {
         Some(i) => i,
         None => {
@@ -317,6 +384,7 @@ fn hook_after(op: &Op, old: u64, new: u64, ok: bool) {
 
 /// Emit a harness-level event from inside a virtual thread (action bodies, call/return marks).
 pub fn note(name: &str, a: u64, b: u64) {
+    let _hg = HarnessGuard::new();
     let i = match VTID.with(|v| v.get()) {
         Some(i) => i,
         None => {
@@ -439,6 +507,11 @@ pub struct RunCfg {
     pub deliver_at_start: bool,
     /// How many consecutive steps spinning threads may take while nobody else can step.
     pub max_solo_spin: usize,
+    /// Signals whose kernel disposition is watched: after every step the controller logs a
+    /// `disp_lib` event when the library's dispatcher became the disposition; with
+    /// `deliver_requires_lib` a delivery of such a signal is only offered once it is.
+    pub watch: Vec<c_int>,
+    pub deliver_requires_lib: bool,
     /// What a delivery runs (default: the registry's real dispatcher).
     pub deliver: Option<DeliverFn>,
 }
@@ -456,6 +529,8 @@ impl Default for RunCfg {
             max_steps: 5000,
             deliver_at_start: true,
             max_solo_spin: 64,
+            watch: vec![],
+            deliver_requires_lib: false,
             deliver: None,
         }
     }
@@ -478,6 +553,14 @@ pub struct RunResult {
     pub panics: Vec<(usize, String)>,
     /// Threads that were parked (not done) when the run ended, with their pending op.
     pub stuck: Vec<(usize, usize, Option<Op>)>,
+}
+
+pub fn disposition_is_lib(sig: c_int) -> bool {
+    let mut old: libc::sigaction = unsafe { std::mem::zeroed() };
+    if unsafe { libc::sigaction(sig, std::ptr::null(), &mut old) } != 0 {
+        return false;
+    }
+    old.sa_sigaction == verif::handler_addr()
 }
 
 fn fd_readable(fd: c_int) -> bool {
@@ -569,6 +652,7 @@ pub fn run(bodies: Vec<Body>, strategy: &mut dyn Strategy, cfg: &RunCfg) -> RunR
     let mut preemptions = 0usize;
     let mut step = 0usize;
     let mut solo_spin = 0usize;
+    let mut is_lib: HashMap<c_int, bool> = HashMap::new();
     let outcome;
     let mut st = s.m.lock().unwrap();
     loop {
@@ -584,6 +668,17 @@ pub fn run(bodies: Vec<Body>, strategy: &mut dyn Strategy, cfg: &RunCfg) -> RunR
         if let Some(r) = st.abort_reason.clone() {
             outcome = Outcome::Aborted(r);
             break;
+        }
+        for sig in &cfg.watch {
+            let now = disposition_is_lib(*sig);
+            let before = is_lib.insert(*sig, now).unwrap_or(false);
+            if now && !before {
+                let (thr, depth) = match last {
+                    Some(t) => (t, st.threads[t].depth),
+                    None => (CTL_THREAD, 0),
+                };
+                push_ctl(&mut st, thr, depth, "disp_lib", *sig as u64, 0);
+            }
         }
         if st.threads.iter().all(|t| t.status == Status::Done) {
             outcome = Outcome::Done;
@@ -607,6 +702,9 @@ pub fn run(bodies: Vec<Body>, strategy: &mut dyn Strategy, cfg: &RunCfg) -> RunR
             match th.pending {
                 Some(op) => match op.kind {
                     Kind::MutexLock => !st.mutex_holder.contains_key(&op.loc),
+                    Kind::SyscallBlocking if op.name == "wait_lib" => {
+                        disposition_is_lib(op.loc as c_int)
+                    }
                     Kind::SyscallBlocking => fd_readable(op.loc as c_int),
                     _ => true,
                 },
@@ -673,6 +771,9 @@ pub fn run(bodies: Vec<Body>, strategy: &mut dyn Strategy, cfg: &RunCfg) -> RunR
                         continue;
                     }
                     for sig in &cfg.signals {
+                        if cfg.deliver_requires_lib && !is_lib.get(sig).copied().unwrap_or(false) {
+                            continue;
+                        }
                         choices.push(Choice::Deliver(*t, *sig));
                     }
                 }
